@@ -148,6 +148,19 @@ impl<'a> IrEval<'a> {
                 }
                 last
             }
+            "intr" => {
+                // (intr Name ret (types...) args...): resolved signature, arguments left to right
+                let name = e.args()[0].atom();
+                let t = match &e.args()[2] {
+                    Sx::L(ts) => T::parse(ts.first()?.atom())?,
+                    _ => return None,
+                };
+                let mut vals = Vec::new();
+                for x in &e.args()[3..] {
+                    vals.push(self.eval(x, st, depth)?);
+                }
+                intr(name, t, &vals)
+            }
             "call" => {
                 let id: u32 = e.args()[0].atom().parse().ok()?;
                 let f = *self.funcs.get(&id)?;
@@ -535,12 +548,30 @@ impl<'a> AstEval<'a> {
                 self.type_of(&x[1], fr)?;
                 c_type(x[0].atom())
             }
-            "call" => {
-                let f = *self.funcs.get(x[0].atom())?;
-                c_type(f.args()[1].atom())
-            }
+            "call" => match self.funcs.get(x[0].atom()) {
+                Some(f) => c_type(f.args()[1].atom()),
+                None => {
+                    // a built-in: applied at the common type of its arguments
+                    let b = builtin_of_hlsl_name(x[0].atom())?;
+                    Some(builtin_ret(b, self.args_type(&x[1..], fr)?))
+                }
+            },
             _ => None,
         }
+    }
+
+    fn args_type(&self, args: &[Sx], fr: &Frame) -> Option<T> {
+        let mut it = args.iter().rev();
+        let mut t = self.type_of(it.next()?, fr)?;
+        for a in it {
+            t = common(self.type_of(a, fr)?, t)?;
+        }
+        // all arguments literals: the built-in is resolved at int / float
+        Some(match t {
+            T::Lit => T::Int,
+            T::Flit => T::Float,
+            t => t,
+        })
     }
 
     fn read(&self, name: &str, fr: &Frame, gl: &HashMap<String, V>) -> Option<V> {
@@ -621,6 +652,15 @@ impl<'a> AstEval<'a> {
                     V::B(false) => self.eval_as(t, &x[2], fr, gl, depth),
                     _ => None,
                 }
+            }
+            "call" if !self.funcs.contains_key(x[0].atom()) => {
+                let b = builtin_of_hlsl_name(x[0].atom())?;
+                let t = self.args_type(&x[1..], fr)?;
+                let mut vals = Vec::new();
+                for a in &x[1..] {
+                    vals.push(self.eval_as(t, a, fr, gl, depth)?);
+                }
+                intr(b, t, &vals)
             }
             "call" => {
                 let f = *self.funcs.get(x[0].atom())?;
